@@ -815,7 +815,17 @@ impl<'a> Gen<'a> {
             5 if depth > 0 => {
                 let cond = self.cond_expr(env);
                 let then = self.body(env, depth);
-                let els = if self.rng.below(2) == 0 { Some(self.body(env, depth)) } else { None };
+                let els = match self.rng.below(5) {
+                    0 | 1 => None,
+                    2 => {
+                        // else-if chain
+                        let c2 = self.cond_expr(env);
+                        let t2 = self.body(env, depth);
+                        let e2 = if self.rng.below(2) == 0 { Some(self.body(env, depth)) } else { None };
+                        Some(MBody::Single(Box::new(MStmt::If { cond: c2, then: t2, els: e2 })))
+                    }
+                    _ => Some(self.body(env, depth)),
+                };
                 MStmt::If { cond, then, els }
             }
             6 if depth > 0 => {
